@@ -10,6 +10,11 @@
 //! `*total_out` = bytes delivered so far (pushed + taken), has_more / is_finished; after destroy
 //! the counting allocator must have no live block.  One-shot BrotliEncoderCompress, CompressMulti
 //! (desired threads 0..32) and the work-pool calls are compared with their Rust counterparts.
+//! SetParameter calls occur at arbitrary points of the histories (before the first stream call,
+//! between stream calls, after FINISH; every named parameter + UNUSED ids; in- and out-of-range values):
+//! return value 1/0 vs the Rust method's bool, the whole parameter block afterwards (`{:?}` of the pub
+//! field) and the rest of the history are compared (`ffi:set-parameter:*`); `bvh ffi c20` runs only
+//! SetParameter-heavy histories (second stage of C20).
 //! An output-buffer grid (`grid_case`) drives the multi / work-pool / one-shot entry points with
 //! buffers {0, 1, tiny, exact-1, exact, bound-1, bound} x desired threads {0,1,2,4,16,17,32} x
 //! {CompressMulti, work pool NULL, work pool real}: success implies size <= buffer, both decoders
@@ -68,12 +73,27 @@ pub enum Call {
     Take(usize),
     HasMore,
     IsFinished,
+    /// BrotliEncoderSetParameter(id, value) at this point of the history
+    SetParam(u32, u32),
 }
 #[derive(Clone, Debug)]
 pub struct History { custom_alloc: bool, params: Vec<(u32, u32)>, dict: Vec<u8>, calls: Vec<Call> }
 
+/// every named parameter of `BrotliEncoderParameter` by its discriminant (+ two UNUSED ones)
+const PARAM_IDS: [u32; 34] = [0, 1, 2, 3, 4, 5, 6, 150, 151, 152, 153, 154, 155, 156, 157, 158, 159, 160, 161, 162, 164, 165, 166, 167, 168, 169, 170, 171, 7, 18, 100, 200, 254, 255];
 fn param_of(k: u32) -> P {
-    match k { 0 => P::BROTLI_PARAM_MODE, 1 => P::BROTLI_PARAM_QUALITY, 2 => P::BROTLI_PARAM_LGWIN, 3 => P::BROTLI_PARAM_LGBLOCK, 4 => P::BROTLI_PARAM_DISABLE_LITERAL_CONTEXT_MODELING, 5 => P::BROTLI_PARAM_SIZE_HINT, 6 => P::BROTLI_PARAM_LARGE_WINDOW, 164 => P::BROTLI_PARAM_CATABLE, 165 => P::BROTLI_PARAM_APPENDABLE, 166 => P::BROTLI_PARAM_MAGIC_NUMBER, _ => P::BROTLI_PARAM_QUALITY }
+    match k {
+        0 => P::BROTLI_PARAM_MODE, 1 => P::BROTLI_PARAM_QUALITY, 2 => P::BROTLI_PARAM_LGWIN, 3 => P::BROTLI_PARAM_LGBLOCK,
+        4 => P::BROTLI_PARAM_DISABLE_LITERAL_CONTEXT_MODELING, 5 => P::BROTLI_PARAM_SIZE_HINT, 6 => P::BROTLI_PARAM_LARGE_WINDOW,
+        150 => P::BROTLI_PARAM_Q9_5, 151 => P::BROTLI_METABLOCK_CALLBACK, 152 => P::BROTLI_PARAM_STRIDE_DETECTION_QUALITY,
+        153 => P::BROTLI_PARAM_HIGH_ENTROPY_DETECTION_QUALITY, 154 => P::BROTLI_PARAM_LITERAL_BYTE_SCORE, 155 => P::BROTLI_PARAM_CDF_ADAPTATION_DETECTION,
+        156 => P::BROTLI_PARAM_PRIOR_BITMASK_DETECTION, 157 => P::BROTLI_PARAM_SPEED, 158 => P::BROTLI_PARAM_SPEED_MAX, 159 => P::BROTLI_PARAM_CM_SPEED,
+        160 => P::BROTLI_PARAM_CM_SPEED_MAX, 161 => P::BROTLI_PARAM_SPEED_LOW, 162 => P::BROTLI_PARAM_SPEED_LOW_MAX, 164 => P::BROTLI_PARAM_CM_SPEED_LOW,
+        165 => P::BROTLI_PARAM_CM_SPEED_LOW_MAX, 166 => P::BROTLI_PARAM_AVOID_DISTANCE_PREFIX_SEARCH, 167 => P::BROTLI_PARAM_CATABLE,
+        168 => P::BROTLI_PARAM_APPENDABLE, 169 => P::BROTLI_PARAM_MAGIC_NUMBER, 170 => P::BROTLI_PARAM_NO_DICTIONARY, 171 => P::BROTLI_PARAM_FAVOR_EFFICIENCY,
+        7 => P::UNUSED7, 18 => P::UNUSED18, 100 => P::UNUSED100, 200 => P::UNUSED200, 254 => P::UNUSED254, 255 => P::UNUSED255,
+        _ => panic!("harness: not a parameter id {}", k),
+    }
 }
 fn rop(op: u8) -> ROp { match op { 0 => ROp::BROTLI_OPERATION_PROCESS, 1 => ROp::BROTLI_OPERATION_FLUSH, 2 => ROp::BROTLI_OPERATION_FINISH, _ => ROp::BROTLI_OPERATION_EMIT_METADATA } }
 fn cop(op: u8) -> c::BrotliEncoderOperation { match op { 0 => c::BrotliEncoderOperation::BROTLI_OPERATION_PROCESS, 1 => c::BrotliEncoderOperation::BROTLI_OPERATION_FLUSH, 2 => c::BrotliEncoderOperation::BROTLI_OPERATION_FINISH, _ => c::BrotliEncoderOperation::BROTLI_OPERATION_EMIT_METADATA } }
@@ -81,7 +101,7 @@ fn cop(op: u8) -> c::BrotliEncoderOperation { match op { 0 => c::BrotliEncoderOp
 fn hist_json(h: &History) -> String {
     let calls: Vec<String> = h.calls.iter().map(|c| match c {
         Call::Stream { op, input, cap, streaming, tot, null_in, null_out } => format!("s{}:{}:{}:{}{}{}{}", op, hex(input), cap, *streaming as u8, *tot as u8, *null_in as u8, *null_out as u8),
-        Call::Take(n) => format!("t{}", n), Call::HasMore => "m".into(), Call::IsFinished => "f".into() }).collect();
+        Call::Take(n) => format!("t{}", n), Call::HasMore => "m".into(), Call::IsFinished => "f".into(), Call::SetParam(k, v) => format!("p{}={}", k, v) }).collect();
     format!("{{\"custom_alloc\":{},\"params\":{},\"dict\":{},\"calls\":{}}}", h.custom_alloc, jstr(&h.params.iter().map(|(k, v)| format!("{}={}", k, v)).collect::<Vec<_>>().join(",")), jstr(&hex(&h.dict)), jstr(&calls.join(" ")))
 }
 
@@ -89,7 +109,7 @@ const BASE_IN: usize = 1_000_000; // symbolic addresses used in the corresponden
 const BASE_OUT: usize = 5_000_000;
 
 /// run one history through the C ABI and the Rust API
-pub fn run_history(h: &History, rep: &mut Report) -> (String, String) {
+pub fn run_history(h: &History, rep: &mut Report, extra: &mut Vec<(String, String)>) -> (String, String) {
     let case = hist_json(h);
     rep.evaluations += 1;
     let mut nontrivial = false;
@@ -98,13 +118,25 @@ pub fn run_history(h: &History, rep: &mut Report) -> (String, String) {
         let ctr = new_counter(1);
         let ctr_ptr = &*ctr as *const Counter as *mut c_void;
         let st = if h.custom_alloc { c::BrotliEncoderCreateInstance(Some(c_alloc), Some(c_free), ctr_ptr) } else { c::BrotliEncoderCreateInstance(None, None, core::ptr::null_mut()) };
-        if st.is_null() { rep.violation("ffi:create-null", "BrotliEncoderCreateInstance returned NULL", case.clone()); return ("ffi S".into(), "".into()); }
+        if st.is_null() { rep.violation("ffi:create-null", "BrotliEncoderCreateInstance returned NULL", case.clone()); return ("ffi S -".into(), "".into()); }
         let mut twin = BrotliEncoderStateStruct::new(StandardAlloc::default());
-        for (k, v) in &h.params {
-            let a = c::BrotliEncoderSetParameter(st, param_of(*k), *v);
-            let b = twin.set_parameter(param_of(*k), *v);
-            if (a != 0) != b { rep.violation("ffi:set-parameter-differs", &format!("SetParameter({},{}) returned {} but the Rust API {}", k, v, a, b), case.clone()); }
-        }
+        // SetParameter on both instances: return value, the whole parameter block afterwards, model line
+        let mut set_param = |st: *mut c::BrotliEncoderState, twin: &mut BrotliEncoderStateStruct<StandardAlloc>, k: u32, v: u32, at: &str, rep: &mut Report, ops: &mut Vec<(String, String)>| {
+            let used = twin.is_initialized_;
+            let a = c::BrotliEncoderSetParameter(st, param_of(k), v);
+            let b = twin.set_parameter(param_of(k), v);
+            rep.count(if used { "set_parameter.after_first_use" } else { "set_parameter.before_first_use" });
+            rep.count(if a != 0 { "set_parameter.returned_1" } else { "set_parameter.returned_0" });
+            ops.push((format!("ffi P {} {} {}", used as u8, k, v), a.to_string()));
+            if (a != 0) != b {
+                let sig = if used && a != 0 { "ffi:set-parameter:accepted-after-first-use" } else { "ffi:set-parameter:return-differs" };
+                rep.violation(sig, &format!("SetParameter({},{}) {} returned {} but the Rust method {}", k, v, at, a, b), case.clone());
+            }
+            let (pc, pr) = (format!("{:?}", (*st).compressor.params), format!("{:?}", twin.params));
+            if pc != pr { rep.violation("ffi:set-parameter:params-differ", &format!("after SetParameter({},{}) {} the C instance's parameters differ from the Rust instance's", k, v, at), case.clone()); }
+        };
+        let mut plines: Vec<(String, String)> = vec![];
+        for (k, v) in &h.params { set_param(st, &mut twin, *k, *v, "before the first stream call", rep, &mut plines); }
         if !h.dict.is_empty() {
             c::BrotliEncoderSetCustomDictionary(st, h.dict.len(), h.dict.as_ptr());
             twin.set_custom_dictionary(h.dict.len(), &h.dict);
@@ -181,6 +213,7 @@ pub fn run_history(h: &History, rep: &mut Report) -> (String, String) {
                     ops.push(format!("t:{}:{}", n, hex(&rbytes)));
                     imp.push(format!("{}:{}:0", hex(&cbytes), cs));
                 }
+                Call::SetParam(k, v) => { nontrivial = true; set_param(st, &mut twin, *k, *v, &format!("as call #{}", ci), rep, &mut plines); }
                 Call::HasMore => { let a = c::BrotliEncoderHasMoreOutput(st); let b = twin.has_more_output(); if (a != 0) != b { rep.violation("ffi:has-more-differs", &format!("call #{}", ci), case.clone()); } }
                 Call::IsFinished => { let a = c::BrotliEncoderIsFinished(st); let b = twin.is_finished(); if (a != 0) != b { rep.violation("ffi:is-finished-differs", &format!("call #{}", ci), case.clone()); } }
             }
@@ -201,6 +234,7 @@ pub fn run_history(h: &History, rep: &mut Report) -> (String, String) {
             if ctr.bad_free.load(Ordering::SeqCst) != 0 { rep.violation("ffi:allocator:foreign-free", "a block was freed with another opaque than it was allocated with", case.clone()); }
         }
         let _ = rust_tot;
+        extra.extend(plines);
     }
     if nontrivial { rep.nontrivial += 1; }
     (format!("ffi S {}", if ops.is_empty() { "-".to_string() } else { ops.join(" ") }), imp.join(" "))
@@ -209,23 +243,31 @@ pub fn run_history(h: &History, rep: &mut Report) -> (String, String) {
 fn gen_data(rng: &mut Rng, n: usize) -> Vec<u8> {
     match rng.below(3) { 0 => (0..n).map(|_| rng.below(256) as u8).collect(), 1 => (0..n).map(|i| b"abcabcabd the quick brown fox "[i % 30]).collect(), _ => (0..n).map(|i| (i * 13 % 251) as u8).collect() }
 }
-fn gen_history(rng: &mut Rng) -> History {
+fn gen_history(rng: &mut Rng, setparam_heavy: bool) -> History {
     let q = *rng.pick(&[0u32, 1, 2, 4, 5, 6, 9, 9, 10, 11]);
     let lgwin = rng.range(10, 18) as u32;
     let mut params = vec![(1u32, q), (2u32, lgwin)];
     if rng.chance(1, 4) { params.push((0, rng.below(3) as u32)); }
     if rng.chance(1, 4) { params.push((5, rng.below(5000) as u32)); }
-    if rng.chance(1, 6) { params.push((164, 1)); }
-    if rng.chance(1, 8) { params.push((165, 1)); }
-    if rng.chance(1, 8) { params.push((166, 1)); }
+    if rng.chance(1, 6) { params.push((167, 1)); }
+    if rng.chance(1, 8) { params.push((168, 1)); }
+    if rng.chance(1, 8) { params.push((169, 1)); }
     if rng.chance(1, 10) { params.push((3, rng.range(16, 20) as u32)); }
     if rng.chance(1, 12) { params.push((1, 99)); } // out-of-range value: both APIs must agree
+    if rng.chance(1, 3) { let k = *rng.pick(&PARAM_IDS); if k != 151 && k != 3 { params.push((k, *rng.pick(&[0u32, 1, 2, 7, 300, 0xFFFF_FFFF]))); } }
     let big = q >= 10;
     let mut calls = vec![];
+    let gen_sp = |rng: &mut Rng| -> Call {
+        let k = *rng.pick(&PARAM_IDS);
+        let v = match rng.below(6) { 0 => 0, 1 => 1, 2 => rng.below(12) as u32, 3 => rng.below(40) as u32, 4 => 0xFFFF_FFFF, _ => rng.next() as u32 };
+        Call::SetParam(k, v)
+    };
+    let sp_rate = if setparam_heavy { 2 } else { 8 };
     let n = rng.range(1, 10);
     let caps: [usize; 8] = [0, 1, 3, 16, 100, 1000, 5000, 70000];
     let mk = |rng: &mut Rng, op: u8, input: Vec<u8>, cap: usize| Call::Stream { op, input, cap, streaming: rng.chance(1, 4), tot: rng.chance(3, 4), null_in: rng.chance(1, 2), null_out: rng.chance(1, 2) };
     for _ in 0..n {
+        if rng.chance(1, sp_rate) { calls.push(gen_sp(rng)); }
         match rng.below(12) {
             0 => calls.push(Call::Take(*rng.pick(&[0usize, 1, 5, 100, 100000]))),
             1 => calls.push(Call::HasMore),
@@ -242,7 +284,14 @@ fn gen_history(rng: &mut Rng) -> History {
         }
     }
     // finish: FINISH with shrinking patience, then generous
-    for cap in [0usize, 1, 7, 70000, 70000, 70000] { if rng.chance(2, 3) || cap == 70000 { calls.push(mk(rng, 2, vec![], cap)); if rng.chance(1, 4) { calls.push(Call::Take(0)); } } }
+    for cap in [0usize, 1, 7, 70000, 70000, 70000] { if rng.chance(2, 3) || cap == 70000 { calls.push(mk(rng, 2, vec![], cap)); if rng.chance(1, 4) { calls.push(Call::Take(0)); } if rng.chance(1, sp_rate * 2) { calls.push(gen_sp(rng)); } } }
+    if rng.chance(1, sp_rate) { calls.push(gen_sp(rng)); } // after FINISH
+    if setparam_heavy {
+        // the seeded-regression shape: a quality / window change in the middle of a stream
+        let pos = rng.below(calls.len() as u64 + 1) as usize;
+        calls.insert(pos, Call::SetParam(*rng.pick(&[1u32, 2, 3, 167, 169]), *rng.pick(&[0u32, 1, 5, 9, 11, 16, 24])));
+        calls.push(mk(rng, 2, vec![], 70000));
+    }
     calls.push(Call::IsFinished); calls.push(Call::HasMore);
     let dict = if rng.chance(1, 8) { let dl = rng.range(1, 300) as usize; gen_data(rng, dl) } else { vec![] };
     History { custom_alloc: rng.chance(1, 2), params, dict, calls }
@@ -266,6 +315,7 @@ fn fix_metadata(h: &mut History) {
                 out.push(Call::Stream { op: *op, input: inp, cap: *cap, streaming: *streaming, tot: *tot, null_in: *null_in, null_out: *null_out });
             }
             Call::Take(n) => { let mut s = *n; let _ = twin.take_output(&mut s); out.push(c.clone()); }
+            Call::SetParam(k, v) => { twin.set_parameter(param_of(*k), *v); out.push(c.clone()); }
             other => out.push(other.clone()),
         }
     }
@@ -491,13 +541,15 @@ fn risky_cases(rep: &mut Report) {
 
 pub fn run_cmd(args: &Args) {
     if args.rest.get(0).map(|s| s.as_str()) == Some("shard") { return run_shard(args, args.rest[1].parse().unwrap(), args.rest[2].parse().unwrap()); }
+    // `bvh ffi c20`: only the twin histories with SetParameter calls at arbitrary points (second stage of C20)
+    let c20 = args.rest.get(0).map(|s| s.as_str()) == Some("c20");
     let nshards = 16u64;
     let exe = std::env::current_exe().unwrap();
     let mut kids = vec![];
     for s in 0..nshards {
         let d = args.out.join(format!("shard{}", s));
         std::fs::create_dir_all(&d).unwrap();
-        kids.push((s, d.clone(), std::process::Command::new(&exe).args(["ffi", "--tier", &args.tier, "--seed", &args.seed.to_string(), "--out", d.to_str().unwrap(), "shard", &s.to_string(), &nshards.to_string()]).stderr(std::process::Stdio::null()).spawn().unwrap()));
+        kids.push((s, d.clone(), std::process::Command::new(&exe).args(["ffi", "--tier", &args.tier, "--seed", &args.seed.to_string(), "--out", d.to_str().unwrap(), "shard", &s.to_string(), &nshards.to_string(), if c20 { "c20" } else { "all" }]).stderr(std::process::Stdio::null()).spawn().unwrap()));
     }
     let mut corr = Corr::new(&args.out);
     let mut rep = Report::default();
@@ -521,14 +573,19 @@ fn run_shard(args: &Args, shard: u64, nshards: u64) {
     let mut corr = Corr::new(&args.out);
     let mut rep = Report::default();
     let total: u64 = if thorough { 24000 } else { 1600 };
+    let c20 = args.rest.get(3).map(|s| s.as_str()) == Some("c20");
+    let mut extra: Vec<(String, String)> = vec![];
+    let total: u64 = if c20 { if thorough { 8000 } else { 800 } } else { total };
     for i in (0..total).filter(|i| i % nshards == shard) {
-        let mut rng = Rng::new(args.seed ^ 0xFF1 ^ (i << 20));
-        let mut h = gen_history(&mut rng);
+        let mut rng = Rng::new(args.seed ^ (if c20 { 0xC20 } else { 0xFF1 }) ^ (i << 20));
+        let mut h = gen_history(&mut rng, c20 || i % 4 == 0);
         fix_metadata(&mut h);
         std::fs::write(args.out.join("current.txt"), hist_json(&h)).ok();
-        let (o, a) = run_history(&h, &mut rep);
+        let (o, a) = run_history(&h, &mut rep, &mut extra);
         if o.len() < 60000 { corr.case(&o, &a); }
     }
+    for (o, a) in extra.drain(..) { corr.case(&o, &a); }
+    if c20 { std::fs::write(args.out.join("current.txt"), "").ok(); corr.finish(); rep.write(&args.out); return; }
     let n1: u64 = if thorough { 4000 } else { 400 };
     for i in (0..n1).filter(|i| i % nshards == shard) { let mut rng = Rng::new(args.seed ^ 0x0115 ^ (i << 20)); std::fs::write(args.out.join("current.txt"), format!("{{\"oneshot_index\":{}}}", i)).ok(); oneshot_case(&mut rng, &mut rep); }
     // every desired thread count 0..32, several inputs each
